@@ -47,6 +47,7 @@ type FuncContract struct {
 	Props     []string // property ids this contract serves (prop C10,C23)
 	InlineMax int
 	AtCall    map[string][]Clause
+	AtCallGhost map[string][]Clause // callee -> accumulator updates (Label = ghost name, E = increment)
 	Callbacks map[string][]string // function-typed parameter -> ghost names its calls are assumed to preserve
 	Binds     []Clause            // locations the result must commit to (relational obligations)
 	Opaque    map[string]bool     // callees (short names) treated as unknown code at call sites of this function
@@ -68,7 +69,10 @@ type SpecParam struct{ Name, Type string }
 type UFDecl struct{ Name, Decl, Ret string }
 
 // GhostDecl: specification-only state threaded through the heap like a map heap.
-type GhostDecl struct{ Name, Key, Val string }
+type GhostDecl struct {
+	Name, Key, Val string
+	Acc            bool
+}
 
 type ContractSet struct {
 	Funcs map[string]*FuncContract // by Key
@@ -87,7 +91,7 @@ func NewContractSet() *ContractSet {
 
 var clauseKW = map[string]bool{"requires": true, "ensures": true, "modifies": true, "loop": true, "lock-balanced": true,
 	"terminates": true, "thin": true, "nopanic": true, "mode": true, "params": true, "prop": true, "pure": true, "noinline": true, "trusted": true,
-	"at-call": true, "nodeadlock": true, "inline-all": true, "dead-paths": true, "callback": true, "opaque": true, "binds": true, "binds-accept": true}
+	"at-call": true, "nodeadlock": true, "inline-all": true, "at-call-inlined": true, "dead-paths": true, "callback": true, "opaque": true, "binds": true, "binds-accept": true}
 
 // ParseContractFile reads //@ lines. pkgPath is the package the file belongs to ("" for dep files,
 // which must then use full names "pkgpath.Func").
@@ -177,6 +181,10 @@ func (cs *ContractSet) ParseContractFile(path, pkgPath string) error {
 			} else {
 				g.Val = f[2]
 			}
+			// `accumulator`: a measure written only by `at-call ... ghost $g += e` clauses and by
+			// contracts that name it in `modifies`; calls of unknown code are ASSUMED not to change it
+			// (i.e. not to reach a function that updates it) - listed in the evidence
+			g.Acc = f[len(f)-1] == "accumulator"
 			cs.Ghosts[g.Name] = g
 			cur = nil
 		case "uf":
@@ -253,6 +261,10 @@ func (cs *ContractSet) ParseContractFile(path, pkgPath string) error {
 				}
 				sub := f[2]
 				srest := strings.TrimSpace(l.s[strings.Index(l.s, sub)+len(sub):])
+				if b := strings.Index(sub, "["); b > 0 && strings.HasSuffix(sub, "]") {
+					label = sub[b+1 : len(sub)-1] // loop N invariant[label] ...
+					sub = sub[:b]
+				}
 				switch sub {
 				case "invariant":
 					c, err := mk(srest)
@@ -289,6 +301,21 @@ func (cs *ContractSet) ParseContractFile(path, pkgPath string) error {
 			case "at-call":
 				// at-call <callee short name> assert <expr>: checked in the caller's state right
 				// before every call of that callee (old() is the caller's entry state)
+				if len(f) >= 6 && f[2] == "ghost" && f[4] == "+=" {
+					// at-call <callee> ghost $g += <expr>: specification-only accumulator, updated right
+					// before every call of that callee (after the at-call assertions of that call)
+					srest := strings.TrimSpace(l.s[strings.Index(l.s, " += ")+4:])
+					c, err := mk(srest)
+					if err != nil {
+						return err
+					}
+					c.Label = f[3]
+					if cur.AtCallGhost == nil {
+						cur.AtCallGhost = map[string][]Clause{}
+					}
+					cur.AtCallGhost[f[1]] = append(cur.AtCallGhost[f[1]], c)
+					break
+				}
 				if len(f) < 4 || !strings.HasPrefix(f[2], "assert") {
 					return fmt.Errorf("%s:%d: at-call <callee> assert <expr>", path, l.n)
 				}
